@@ -140,11 +140,12 @@ class GeminiClientProtocol(asyncio.Protocol):
             self._set_error(ValueError("Invalid response header: missing status"))
             return
 
-        try:
-            self.status = int(parts[0])
-        except ValueError:
+        # The status is exactly two ASCII digits (int() alone would also take
+        # "+20", " 20", "2_0" or non-ASCII digits)
+        if not (len(parts[0]) == 2 and parts[0].isascii() and parts[0].isdigit()):
             self._set_error(ValueError(f"Invalid status code: {parts[0]}"))
             return
+        self.status = int(parts[0])
 
         # Meta is optional, default to empty string
         self.meta = parts[1] if len(parts) > 1 else ""
@@ -152,6 +153,11 @@ class GeminiClientProtocol(asyncio.Protocol):
         # Validate status code range
         if not (10 <= self.status < 70):
             self._set_error(ValueError(f"Status code out of range: {self.status}"))
+            return
+
+        # The meta is a single line: a bare CR or LF inside it is malformed
+        if "\r" in self.meta or "\n" in self.meta:
+            self._set_error(ValueError("Invalid response header: line break in meta"))
 
     def eof_received(self) -> bool:
         """Called when the server closes its write side (graceful shutdown).
@@ -394,16 +400,21 @@ class TitanClientProtocol(asyncio.Protocol):
             self._set_error(ValueError("Invalid response header: missing status"))
             return
 
-        try:
-            self.status = int(parts[0])
-        except ValueError:
+        # The status is exactly two ASCII digits (int() alone would also take
+        # "+20", " 20", "2_0" or non-ASCII digits)
+        if not (len(parts[0]) == 2 and parts[0].isascii() and parts[0].isdigit()):
             self._set_error(ValueError(f"Invalid status code: {parts[0]}"))
             return
+        self.status = int(parts[0])
 
         self.meta = parts[1] if len(parts) > 1 else ""
 
         if not (10 <= self.status < 70):
             self._set_error(ValueError(f"Status code out of range: {self.status}"))
+            return
+
+        if "\r" in self.meta or "\n" in self.meta:
+            self._set_error(ValueError("Invalid response header: line break in meta"))
 
     def eof_received(self) -> bool:
         """Called when the server closes its write side.
